@@ -1274,9 +1274,15 @@ static void union_initializer(Token **rest, Token *tok, Initializer *init) {
   // and that initializes the first union member by default.
   // You can initialize other member using a designated initializer.
   if (equal(tok, "{") && equal(tok->next, ".")) {
-    Member *mem = struct_designator(&tok, tok->next, init->ty);
-    init->mem = mem;
-    designation(&tok, tok, init->children[mem->idx]);
+    // Further designators may follow; the member named last is the
+    // one the union holds.
+    do {
+      Member *mem = struct_designator(&tok, tok->next, init->ty);
+      init->mem = mem;
+      designation(&tok, tok, init->children[mem->idx]);
+    } while (equal(tok, ",") && equal(tok->next, "."));
+
+    consume(&tok, tok, ",");
     *rest = skip(tok, "}");
     return;
   }
